@@ -212,10 +212,15 @@ func findInAlternates[T any](s *ObjectStorage, fn func(*ObjectStorage) (T, error
 	}
 
 	err := g.Wait()
-	if err != nil && !found {
+	if found {
+		return foundVal, nil
+	}
+	if err != nil {
 		return zero, errors.Join(err, plumbing.ErrObjectNotFound)
 	}
-	return foundVal, nil
+	// No alternate has the object: as with zero or one alternate, that is
+	// ErrObjectNotFound, not a zero value with a nil error.
+	return zero, plumbing.ErrObjectNotFound
 }
 
 // requireIndex ensures s.index is populated, performing a cold-load
